@@ -133,9 +133,8 @@ let handle kind c =
     let mposts = List.sort compare (List.filter_map (function EPost (fd, _) -> Some ("POST /" ^ show fd) | _ -> None) effs) in
     let ireqs = sort_names reqs in
     check_eq "requests" show_names mposts ireqs;
-    let mpanic = List.exists (function EPanic -> true | _ -> false) effs in
-    if how = "uploader" && mpanic <> panicked then
-      diff "panic" ~model:(string_of_bool mpanic) ~impl:(string_of_bool panicked);
+    (* the model has no panic (uploader.Run is called directly, without upload.Run's recover) *)
+    if how = "uploader" && panicked then diff "panic" ~model:"false" ~impl:"true";
     let ml = match fs'.fs_local with Some l -> Some (sort_names (List.map (fun f -> f.lf_name) l)) | None -> None in
     let il = if lp2 then Some (sort_names lafter) else None in
     let show_opt = function None -> "(absent)" | Some l -> show_names l in
